@@ -31,6 +31,7 @@ class Harness:
         self.nondet_static = False
         self.fs = 0
         self.memmodel = 'builtin'
+        self.replays = 1
         self.mcw = 0
 
     def as_dict(self):
@@ -61,6 +62,7 @@ def load_all():
                     elif k == "unwindset": cur.unwindset.append(v)
                     elif k == "fs": cur.fs = int(v)
                     elif k == "memmodel": cur.memmodel = v
+                    elif k == "replays": cur.replays = int(v)
                     elif k == "mcw": cur.mcw = int(v)
                     else: raise SystemExit("%s:%d: unknown @harness key %s" % (path, i + 1, k))
             elif cur is not None and s.startswith("// @desc"): cur.desc += (" " if cur.desc else "") + s[8:].strip()
